@@ -204,7 +204,21 @@ func runC02ExtendsX(ctx *core.Ctx) {
 			}
 			main = append(main, []any{nm, ref, body(nm)})
 		}
+		// the branch the model is about: a sibling reference whose target is itself a cross-file service
+		isCross := map[string]bool{}
+		for _, e := range main {
+			if _, ok := e[1].([]any); ok {
+				isCross[e[0].(string)] = true
+			}
+		}
+		through := "no-sibling-through-file"
+		for _, e := range main {
+			if ref, ok := e[1].(string); ok && isCross[ref] {
+				through = "sibling-through-file"
+			}
+		}
 		ctx.Count(fmt.Sprintf("extendsX-random-%d-services-%d-cross-%s", n, min(cross, 2), kind))
+		ctx.Count("extendsX-" + through)
 		ctx.Add("c02.extendsX", c02ExtXArgs{Main: main, Files: files, Orders: c02Perms(names)})
 	}
 }
